@@ -32,44 +32,57 @@ ASSUMPTIONS = [
 TRUSTED = ['modelled by hand: Model/Git.v push_all_atomic / push_names / ref_acceptable; validated on every real push']
 
 
+class _QuietRepo:
+    """A real bert_e.lib.git.Repository (so that whatever private bookkeeping Branch.remove keeps is there) whose
+    commands are recorded instead of run."""
+
+    def __init__(self):
+        import bert_e.lib.git as lg
+        self.repo = lg.Repository('http://probe.invalid/o/r.git')
+        self.cmds = []
+        self.repo.cmd = lambda *a, **k: self.cmds.append(a) or ''
+        self.repo.push = lambda *a, **k: None
+
+    def close(self):
+        try:
+            self.repo.delete()
+        except Exception:
+            pass
+
+
+def _removable(repo, name, force=False):
+    import bert_e.lib.git as lg
+    try:
+        lg.Branch(repo, name).remove(force=force)
+        return True
+    except lg.ForbiddenOperation:
+        return False
+
+
 def gen_facts(ctx):
-    """The name prefixes Branch.remove lets through without `force` (AST of lib/git.py)."""
-    src = open(os.path.join(core.REPO, 'bert_e/lib/git.py')).read()
-    tree = ast.parse(src)
-    fn = None
-    for node in ast.walk(tree):
-        if isinstance(node, ast.ClassDef) and node.name == 'Branch':
-            for f in node.body:
-                if isinstance(f, ast.FunctionDef) and f.name == 'remove':
-                    fn = f
-    if fn is None:
-        raise ValueError('Branch.remove not found')
-    guard = [n for n in fn.body if isinstance(n, ast.If) and any(
-        isinstance(x, ast.Raise) for x in ast.walk(n)) and 'ForbiddenOperation' in ast.dump(n)]
-    if len(guard) != 1:
-        raise ValueError('deletion guard not found')
-    test = guard[0].test
-    # expected shape: not (startswith(a) or startswith(b) ...) and not force
-    if not (isinstance(test, ast.BoolOp) and isinstance(test.op, ast.And) and len(test.values) == 2):
-        raise ValueError('unexpected guard shape')
-    left, right = test.values
-    if not (isinstance(right, ast.UnaryOp) and isinstance(right.op, ast.Not) and getattr(right.operand, 'id', '') == 'force'):
-        raise ValueError('unexpected guard shape (force)')
-    if not (isinstance(left, ast.UnaryOp) and isinstance(left.op, ast.Not)):
-        raise ValueError('unexpected guard shape (prefix test)')
-    inner = left.operand
-    calls = inner.values if isinstance(inner, ast.BoolOp) and isinstance(inner.op, ast.Or) else [inner]
-    prefixes = []
-    for c in calls:
-        if not (isinstance(c, ast.Call) and isinstance(c.func, ast.Attribute) and c.func.attr == 'startswith'
-                and ast.dump(c.func.value) == ast.dump(ast.parse('self.name', mode='eval').body)
-                and len(c.args) == 1 and isinstance(c.args[0], ast.Constant) and isinstance(c.args[0].value, str)):
-            raise ValueError('unexpected prefix test: ' + ast.dump(c)[:120])
-        prefixes.append(c.args[0].value)
+    """The name prefixes Branch.remove lets through without `force`, observed on the running code: every first
+    segment of one to three lower-case letters is tried (`<segment>/x`); a segment is owned when the deletion is not
+    refused.  The shape of the test (prefix, not equality or containment) is covered by guard_corr on every run."""
+    import itertools
+    import string
+    q = _QuietRepo()
+    try:
+        prefixes = []
+        for n in (1, 2, 3):
+            for t in itertools.product(string.ascii_lowercase, repeat=n):
+                seg = ''.join(t)
+                if _removable(q.repo, seg + '/x'):
+                    prefixes.append(seg + '/')
+        if _removable(q.repo, 'development/5.1') or _removable(q.repo, 'bugfix/x'):
+            raise ValueError('Branch.remove lets a destination / feature branch through without force')
+    finally:
+        q.close()
+    ctx.extra['owned_prefixes_observed'] = prefixes
     text = '''(* GENERATED on every run by harness/props/c08.py from %s - do not edit *)
 From Coq Require Import List String.
 Import ListNotations.
 Open Scope string_scope.
+(* observed on the running Branch.remove: the first segments (1-3 lower-case letters) it deletes without force *)
 Definition owned_prefixes : list string := %s.
 ''' % (core.REPO, coq_list(map(coq_str, prefixes)))
     return {'Generated/Facts_C08.v': text}
@@ -87,14 +100,11 @@ def guard_corr(ctx):
     cases = [(n, f) for n in GUARD_NAMES for f in (False, True)]
     answers = ctx.model.batch(['guard x%s %d' % (n.encode().hex(), f) for n, f in cases])
     for (n, f), ans in zip(cases, answers):
-        cmds = []
-        repo = SimpleNamespace(cmd=lambda *a, **k: cmds.append(a), push=lambda *a, **k: None,
-                               _removed_branches=set())
+        q = _QuietRepo()
         try:
-            lg.Branch(repo, n).remove(force=f)
-            got = '1'
-        except lg.ForbiddenOperation:
-            got = '0'
+            got = '1' if _removable(q.repo, n, force=f) else '0'
+        finally:
+            q.close()
         ctx.evaluations += 1
         ctx.count('guard:%s' % got)
         if got != ans:
